@@ -172,6 +172,7 @@ inductive Stmt where
   | write (op : WOp)
   | dcommit            -- CALL dolt_commit('-Am', …)
   | readO              -- SELECT * FROM otherdb.t
+  | readHead           -- SELECT * FROM t AS OF 'HEAD' / AS OF 'main': resolved at the transaction's noms root
   | writeO (op : WOp)  -- DML on otherdb.t (modelled for autocommit statements only)
   | setAuto (b : Bool)
   deriving Repr
@@ -279,6 +280,11 @@ def step (w : World) (i : Nat) : Stmt → World × Res × Option Root
       | some ws => (endTx { w1 with shared := ws, commits := w1.commits ++ [(s.snap.working, s.work)] } i true, .ok, none)
       -- validateWorkingSetForCommit → tx.rollback: SetTransaction(nil), SetIgnoreAutoCommit(false)
       | none => (endTx w1 i false, .retry, none)
+  | .readHead =>
+    let w1 := ensureTx w i
+    let rows := (w1.sess i).snap.head
+    let (w2, r) := endStmt w1 i
+    (w2, r, some rows)
   | .readO =>
     let w1 := ensureTx w i
     let rows := (w1.sess i).workO
